@@ -320,6 +320,25 @@ def audit_unsafe(prog, b, name):
                     if (d[1] == "is_none" and truth is False) or (d[1] == "is_some" and truth is True):
                         good = True
             if not good:
+                # `match self { None => None, Some(_) => <cast> }`: the cast sits on the Some arm of a switch on *self's discriminant
+                for sb in b.live_blocks():
+                    st = b.term(sb)
+                    if st["k"] != "switch":
+                        continue
+                    de = strip(b.switch_discr_expr(sb))
+                    if isinstance(de, tuple) and de[0] == "discr":
+                        base = strip(de[1])
+                        for _ in range(3):
+                            if isinstance(base, tuple) and base[0] in ("deref", "ref"):
+                                base = strip(base[1])
+                        if isinstance(base, tuple) and base[:2] == ("param", 1):
+                            some_t = [tgt for v, tgt in st["arms"] if v == 1]
+                            none_t = [tgt for v, tgt in st["arms"] if v == 0]
+                            if some_t and branch_dominates(b, sb, some_t[0], bb):
+                                good = True
+                            elif none_t and not some_t and st["otherwise"] != none_t[0] and branch_dominates(b, sb, st["otherwise"], bb):
+                                good = True
+            if not good:
                 return False, "`self as *const NotNone<_>` is not guarded by `self.is_none()` being false: a None would be handed out as NotNone"
         return True, "cast to &NotNone only on the branch where self.is_none() is false"
     if name == "from_not_nan_ref_opt":
